@@ -170,6 +170,7 @@ type pstate struct {
 	prefetchEntered, prefetchDone bool
 	prefetchResult                string
 
+	wedged       bool // never returned on its own; released by the clean-up only
 	lateRegister bool // was inside the lookup→registration window while a same-key leader ran its follower check
 }
 
@@ -277,6 +278,9 @@ func (s *sched) reach(p *pstate, point string) {
 		s.logf("p%d passes %s", p.id, shortOf(point))
 		s.depart(p, point)
 		s.mu.Unlock()
+		if point == ptBeforeAdd || point == ptJoined {
+			s.notify() // about to enter the follower wait
+		}
 		return
 	}
 	delete(p.want, point)
@@ -455,7 +459,7 @@ func (s *sched) act(a action) {
 }
 
 func (s *sched) launch(p *pstate) {
-	plan := s.rig.plan(p.key.Op, p.spec.Alt)
+	plan := s.rig.plan(p.key.Op, p.spec.Alt, s.c.OpType)
 	go func() {
 		gid := curGID()
 		s.mu.Lock()
@@ -479,7 +483,7 @@ func (s *sched) launch(p *pstate) {
 			s.mu.Unlock()
 			s.notify()
 		}()
-		rc := s.rig.request(p.ctx, p.key, p.spec.Alt, p.w)
+		rc := s.rig.request(p.ctx, s.c.Layer, s.c.OpType, p.key, p.spec.Alt, p.w)
 		info, err := s.rig.resolver.ArenaResolveGraphQLResponse(rc, plan, p.wr)
 		p.out.Returned = true
 		p.out.err = err
@@ -516,7 +520,7 @@ func (s *sched) poison() {
 	release := make(chan struct{})
 	done := make(chan string, n)
 	k := s.parts[0].key
-	plan := s.rig.plan(k.Op, false)
+	plan := s.rig.plan(k.Op, false, s.c.OpType)
 	for i := 0; i < n; i++ {
 		go func() {
 			msg := ""
@@ -526,7 +530,7 @@ func (s *sched) poison() {
 				}
 				done <- msg
 			}()
-			rc := s.rig.request(context.Background(), k, false, &who{pid: -2, poison: true})
+			rc := s.rig.request(context.Background(), s.c.Layer, s.c.OpType, k, false, &who{pid: -2, poison: true})
 			w := &blockingWriter{arrived: arrived, release: release}
 			if _, err := s.rig.resolver.ArenaResolveGraphQLResponse(rc, plan, w); err != nil {
 				msg = "poison request failed: " + err.Error()
@@ -576,8 +580,11 @@ type settleResult struct {
 // confirmed (by goroutine state) to be blocked in the engine's follower wait.
 func (s *sched) settle() settleResult {
 	deadline := time.Now().Add(s.watchdog)
-	backoff := 5 * time.Microsecond
+	backoff := 20 * time.Microsecond
 	for {
+		// participants announce parks, returns and imminent follower waits on s.wake: give the
+		// ones that are running the chance to do so before paying for a snapshot
+		s.await(backoff)
 		s.mu.Lock()
 		var cand []*pstate
 		unregistered := false
@@ -594,13 +601,11 @@ func (s *sched) settle() settleResult {
 			return settleResult{ok: true}
 		}
 		if unregistered {
-			runtime.Gosched()
 			if time.Now().After(deadline) {
 				return settleResult{}
 			}
 			continue
 		}
-		runtime.Gosched()
 		// one stop-the-world snapshot: the scenario is quiescent iff, at that instant, every
 		// participant that was neither parked nor finished before it sits in a follower wait
 		// (flags are deliberately NOT re-read after the snapshot)
@@ -608,7 +613,7 @@ func (s *sched) settle() settleResult {
 		stable := true
 		for _, p := range cand {
 			g, ok := gs[p.gid]
-			if p.gid == 0 || !ok || !internalWait(g) {
+			if !ok || !internalWait(g) {
 				stable = false
 			}
 		}
@@ -630,14 +635,29 @@ func (s *sched) settle() settleResult {
 			s.mu.Unlock()
 			return res
 		}
-		select {
-		case <-s.wake:
-		case <-time.After(backoff):
-			if backoff < time.Millisecond {
-				backoff *= 2
-			}
+		if backoff < time.Millisecond {
+			backoff *= 2
 		}
 	}
+}
+
+// await returns when a participant signalled a state change, or after d at the latest (the
+// caller then looks at the goroutine states itself). It spins briefly before blocking.
+func (s *sched) await(d time.Duration) {
+	for i := 0; i < 64; i++ {
+		select {
+		case <-s.wake:
+			return
+		default:
+			runtime.Gosched()
+		}
+	}
+	t := time.NewTimer(d)
+	select {
+	case <-s.wake:
+	case <-t.C:
+	}
+	t.Stop()
 }
 
 // drain releases everything so the scenario's goroutines can end (cleanup only).
@@ -691,6 +711,7 @@ func goroutineSet() map[int64]bool {
 func leaked(before map[int64]bool, patience time.Duration) (desc []string, stable bool) {
 	deadline := time.Now().Add(patience)
 	var last map[int64]ginfo
+	tries := 0
 	for {
 		gs := allGoroutines()
 		last = map[int64]ginfo{}
@@ -705,7 +726,11 @@ func leaked(before map[int64]bool, patience time.Duration) (desc []string, stabl
 		if time.Now().After(deadline) {
 			break
 		}
-		time.Sleep(200 * time.Microsecond)
+		if tries++; tries < 20 {
+			runtime.Gosched()
+		} else {
+			time.Sleep(200 * time.Microsecond)
+		}
 	}
 	time.Sleep(50 * time.Millisecond)
 	gs := allGoroutines()
